@@ -93,5 +93,6 @@ Section WithOracle.
 End WithOracle.
 
 (* flattening / reading of floats for the comparison with the implementation *)
-#[global] Instance Flat_xf : Flat xf := fun a => match xmiss a with [] => [OBits (f64_bits (xv a))] | m => map OMiss m end.
+(* a value that depends on unanswered oracle requests is printed as their count (negated tag) followed by the requests *)
+#[global] Instance Flat_xf : Flat xf := fun a => match xmiss a with [] => [OBits (f64_bits (xv a))] | m => OTag (- Z.of_nat (length m)) :: map OMiss m end.
 #[global] Instance Rd_xf : Rd xf := fun l => let '(b, r) := rdZ l in (xpure (f64_of_bits b), r).
